@@ -485,16 +485,27 @@ pub fn c08(tier: &str) -> ! {
         for lens in crate::compx::log_fault_cases() {
             crate::compx::log_fault_case(&lens, &shm, "C08.log_ack_lost");
         }
+        // the table builder under a failing filesystem
+        let mut tcs = crate::compx::long_run_cases().into_iter().filter(|c| c.variant == 0 && matches!(c.long_run, Some(17) | Some(48))).collect::<Vec<_>>();
+        tcs.extend(crate::compx::filter_table_cases().into_iter().take(4));
+        for c in tcs.iter() {
+            crate::compx::table_fault_case(c, &shm, "C08.table_build_ack_lost");
+        }
+        if crate::report::replay_request("compx").is_some() {
+            // replay of a component finding: the enumeration above is short, it is simply re-run
+            crate::report::replay_done(crate::compx::parse_found(&shm).into_iter().next().map(|(c, d, _)| (c, d)));
+        }
         for (clause, detail, art) in crate::compx::parse_found(&shm) {
             rep.findings.push(Finding {
                 clause,
                 detail,
-                ops: vec!["log writer under fault".to_string(), art.to_string()],
+                ops: vec!["log writer / table builder under fault".to_string(), art.to_string()],
                 artefact: json!({"explorer": "compx", "kind": "log_fault", "case": art}),
             });
             rep.validated_findings += 1;
         }
         rep.cov("log_appends_under_fault", json!(shm.get(crate::shm::C_USER + 5)));
+        rep.cov("table_builds_under_fault", json!(shm.get(crate::shm::C_USER + 6)));
     }
     rep.assume("a failing call has no effect on the file (fail-before semantics); one fault per execution, either that single call (once) or that call and all later ones of the counted classes (sticky)");
     rep.assume("counted call classes: create, write/append, rename, remove, open-for-read, size (thorough adds list and, for one configuration, handle reads and flush)");
